@@ -47,12 +47,14 @@ structure Row where
 
 def Row.at (r : Row) (j : Int) : Int := r.vals.getD (j - r.lo).toNat 0
 
-/-- the directed view of the two sequences the program runs on -/
+/-- the directed view of the two sequences the program runs on: the sequences themselves and the
+    direction (`rev = true`: mirrored coordinates `i' = Qlen - i`, `j' = Tlen - j`).  The letters are
+    read through `View.qAt` / `View.tAt` (arrays and a flag rather than two closures: the accessors
+    are on the hot path of the compiled driver). -/
 structure View where
-  /-- the query letter consumed by the step from row `i` to row `i+1` -/
-  qAt : Int → Nat
-  /-- the target letter consumed by the step from column `j-1` to column `j` -/
-  tAt : Int → Nat
+  q : Array Nat
+  t : Array Nat
+  rev : Bool
   qlen : Int
   tlen : Int
   /-- the x-drop allowance in force while the step from row `i` is processed -/
@@ -63,6 +65,14 @@ structure View where
   /-- the two pruning loops run `high` first (the mirror image of `traceReverse`'s `low` first);
       it matters only when every cell of the row is pruned -/
   pruneHighFirst : Bool
+
+/-- the query letter consumed by the step from row `i` to row `i+1` (mirrored: `query[Qlen-1-i']`) -/
+@[inline] def View.qAt (v : View) (i : Int) : Nat :=
+  if v.rev then v.q.getD (v.qlen - 1 - i).toNat 0 else v.q.getD i.toNat 0
+
+/-- the target letter consumed by the step from column `j-1` to column `j` (mirrored: `target[Tlen-j']`) -/
+@[inline] def View.tAt (v : View) (j : Int) : Nat :=
+  if v.rev then v.t.getD (v.tlen - j).toNat 0 else v.t.getD (j - 1).toNat 0
 
 structure Best where
   score : Int
@@ -189,27 +199,30 @@ structure Seqs where
 def Seqs.tlen (s : Seqs) : Int := s.target.size
 def Seqs.qlen (s : Seqs) : Int := s.query.size
 
+/-- the view `traceForward` runs on -/
+def fwdView (c : Costs) (s : Seqs) : View :=
+  { q := s.query, t := s.target, rev := false, qlen := s.qlen, tlen := s.tlen,
+    xf := fun _ => c.blockCost, bestAtExtended := false, pruneHighFirst := false }
+
+/-- the view `traceReverse` runs on.  Mirrored: row `i'` stands for `i = Qlen - i'`, column `j'` for
+    `j = Tlen - j'`; the step from row `i'` consumes `query[Qlen-1-i']`, i.e. it is the source's
+    iteration `i = Qlen-1-i'`, which runs under `x0` down to `i = bottom` inclusive, then under
+    `BlockCost`. -/
+def revView (c : Costs) (s : Seqs) (bottom x0 : Int) : View :=
+  { q := s.query, t := s.target, rev := true, qlen := s.qlen, tlen := s.tlen
+    xf := fun i' => if s.qlen - 1 - i' ≥ bottom then x0 else c.blockCost
+    bestAtExtended := true, pruneHighFirst := true }
+
 /-- `traceForward(mid, low, high)`: `lowEnd` -/
 def traceForward (c : Costs) (s : Seqs) (mid low high : Int) : TraceOut :=
   let (low, high) := clampBounds s.tlen low high
-  traceCore c
-    { qAt := fun i => s.query.getD i.toNat 0, tAt := fun j => s.target.getD (j - 1).toNat 0,
-      qlen := s.qlen, tlen := s.tlen, xf := fun _ => c.blockCost, bestAtExtended := false, pruneHighFirst := false } mid low high
+  traceCore c (fwdView c s) mid low high
 
-/-- `traceReverse(top, low, high, bottom, xfactor)`: `highEnd`.  Mirrored: row `i'` stands for
-    `i = Qlen - i'`, column `j'` for `j = Tlen - j'`; the step from row `i'` consumes
-    `query[Qlen-1-i']`, i.e. it is the source's iteration `i = Qlen-1-i'`. -/
+/-- `traceReverse(top, low, high, bottom, xfactor)`: `highEnd`, on the mirrored view -/
 def traceReverse (c : Costs) (s : Seqs) (top low high bottom xfactor : Int) : TraceOut :=
   let (low, high) := clampBounds s.tlen low high
   let x0 := if top - 1 ≤ bottom then c.blockCost else xfactor
-  let o := traceCore c
-    { qAt := fun i' => s.query.getD (s.qlen - 1 - i').toNat 0
-      tAt := fun j' => s.target.getD (s.tlen - j').toNat 0
-      qlen := s.qlen, tlen := s.tlen
-      -- iteration `i = Qlen-1-i'` runs under `x0` down to `i = bottom` inclusive, then under BlockCost
-      xf := fun i' => if s.qlen - 1 - i' ≥ bottom then x0 else c.blockCost
-      bestAtExtended := true, pruneHighFirst := true }
-    (s.qlen - top) (s.tlen - high) (s.tlen - low)
+  let o := traceCore c (revView c s bottom x0) (s.qlen - top) (s.tlen - high) (s.tlen - low)
   { maxJ := s.tlen - o.maxJ, maxI := s.qlen - o.maxI
     -- `i - j = (Qlen - Tlen) - (i' - j')`
     maxLeft := (s.qlen - s.tlen) - o.maxRight, maxRight := (s.qlen - s.tlen) - o.maxLeft
@@ -262,8 +275,16 @@ def coverLoop (traps : Array Trap) (bepos lowD highD : Int) : Nat → Nat → Ar
           let cov := if coverageA * coverageB * 100 > 99 * (trapA * trapB) then cov.setIfInBounds idx true else cov
           coverLoop traps bepos lowD highD n (idx + 1) cov
 
-/-- `alignRecursion(t)`; `num/den = 1 - minId`; `fuel` bounds the recursion depth -/
-def alignRecursion (c : Costs) (s : Seqs) (traps : Array Trap) (slot : Nat) (minLen num den : Int) :
+/-- `alignRecursion(t)`; `num/den = 1 - minId`; `fuel` bounds the recursion depth.
+
+    `split = false` is the recursion of the source: after the alignment through the middle row it
+    recurses into the rows below and above the alignment, over the whole width of the trapezoid.
+    `split = true` is the recursion the source does *not* have (finding K6; the candidate repair in
+    `notes/C15.md`): it also recurses into the diagonals to the left and to the right of the band
+    `[maxLeft, maxRight]` the reverse trace kept, over the rows the two row-wise recursions leave
+    out.  The driver compares `split = false` with the implementation and uses `split = true` only
+    in the recogniser of K6; the soundness theorems hold for both. -/
+def alignRecursion (c : Costs) (s : Seqs) (traps : Array Trap) (slot : Nat) (minLen num den : Int) (split : Bool) :
     Nat → Trap → AState → AState
   | 0, _, st => st
   | fuel + 1, t, st =>
@@ -284,14 +305,36 @@ def alignRecursion (c : Costs) (s : Seqs) (traps : Array Trap) (slot : Nat) (min
       else st
     let st :=
       if lowTop - t.bottom > minLen && lowTop < t.top - c.maxIGap then
-        alignRecursion c s traps slot minLen num den fuel { t with top := lowTop } st
+        alignRecursion c s traps slot minLen num den split fuel { t with top := lowTop } st
       else st
-    if t.top - highBottom > minLen then
-      alignRecursion c s traps slot minLen num den fuel { t with bottom := highBottom } st
+    let st :=
+      if t.top - highBottom > minLen then
+        alignRecursion c s traps slot minLen num den split fuel { t with bottom := highBottom } st
+      else st
+    if split then
+      let sideBottom := if lowTop > t.bottom then lowTop else t.bottom
+      let sideTop := if highBottom < t.top then highBottom else t.top
+      let leftRight := highEnd.maxLeft - 1
+      let rightLeft := highEnd.maxRight + 1
+      let st :=
+        if sideTop - sideBottom > minLen && t.left ≤ leftRight && leftRight < t.right then
+          alignRecursion c s traps slot minLen num den split fuel
+            { t with bottom := sideBottom, top := sideTop, right := leftRight } st
+        else st
+      if sideTop - sideBottom > minLen && rightLeft ≤ t.right && t.left < rightLeft then
+        alignRecursion c s traps slot minLen num den split fuel
+          { t with bottom := sideBottom, top := sideTop, left := rightLeft } st
+      else st
     else st
 
+/-- recursion fuel for one trapezoid: every level removes at least one row (row-wise calls) or at
+    least one diagonal (the calls of `split = true`) -/
+def recursionFuel (s : Seqs) (split : Bool) (t : Trap) : Nat :=
+  s.query.size + 2 + (if split then (t.right - t.left + 1).toNat else 0)
+
 /-- the loop of `AlignTraps` over the trapezoids: the hits in emission order -/
-def alignLoop (c : Costs) (s : Seqs) (traps : Array Trap) (k minLen num den : Int) : Nat → Nat → AState → AState
+def alignLoop (c : Costs) (s : Seqs) (traps : Array Trap) (k minLen num den : Int) (split : Bool) :
+    Nat → Nat → AState → AState
   | 0, _, st => st
   | n + 1, i, st =>
     match traps[i]? with
@@ -299,12 +342,36 @@ def alignLoop (c : Costs) (s : Seqs) (traps : Array Trap) (k minLen num den : In
     | some t =>
       let st :=
         if !(st.covered.getD i false) && t.top - t.bottom ≥ k then
-          alignRecursion c s traps i minLen num den (s.query.size + 2) t st
+          alignRecursion c s traps i minLen num den split (recursionFuel s split t) t st
         else st
-      alignLoop c s traps k minLen num den n (i + 1) st
+      alignLoop c s traps k minLen num den split n (i + 1) st
 
-def emitted (c : Costs) (s : Seqs) (traps : List Trap) (k minLen num den : Int) : List KHit :=
+/-- the hits in emission order, for either recursion -/
+def emittedWith (split : Bool) (c : Costs) (s : Seqs) (traps : List Trap) (k minLen num den : Int) : List KHit :=
   let ta := traps.toArray
-  (alignLoop c s ta k minLen num den ta.size 0 { covered := Array.replicate ta.size false, hits := #[] }).hits.toList
+  (alignLoop c s ta k minLen num den split ta.size 0 { covered := Array.replicate ta.size false, hits := #[] }).hits.toList
+
+/-- the hits `AlignTraps` collects from the result channel (the recursion of the source) -/
+def emitted (c : Costs) (s : Seqs) (traps : List Trap) (k minLen num den : Int) : List KHit :=
+  emittedWith false c s traps k minLen num den
+
+/-- `starts.Less` as the `≤` of a merge sort: by `Abpos`, ties by `Bbpos` (the seventh repair; before
+    it `Abpos` alone, which let a hit with the same `Abpos` and another `Bbpos` sort between two
+    hits with the same start) -/
+def startLe (a b : Hit) : Bool := if a.abpos ≠ b.abpos then decide (a.abpos < b.abpos) else decide (a.bbpos ≤ b.bbpos)
+
+/-- `ends.Less`: by `Aepos`, ties by `Bepos` -/
+def endLe (a b : Hit) : Bool := if a.aepos ≠ b.aepos then decide (a.aepos < b.aepos) else decide (a.bepos ≤ b.bepos)
+
+/-- the second half of `AlignTraps`: the suppression applied to the hits collected from the channel -/
+def suppressed (em : List KHit) : List Hit :=
+  Biogo.PalsOracle.suppress (fun l => l.mergeSort startLe) (fun l => l.mergeSort endLe) (em.map (·.h))
+
+/-- **`AlignTraps`**: the kernel on every trapezoid that is not yet covered and at least `k` high,
+    then the removal of hits that begin or end at the same point as a higher scoring hit
+    (`Biogo.PalsOracle.suppress`, with the two sorts as stable merge sorts — `sort.Sort` may order
+    equal keys differently, which `alignTraps_sound` does not depend on) -/
+def alignTraps (c : Costs) (s : Seqs) (traps : List Trap) (k minLen num den : Int) : List Hit :=
+  suppressed (emitted c s traps k minLen num den)
 
 end Biogo.PalsKernel
